@@ -209,12 +209,14 @@ func newL1World(idseed uint64, kinds []sim.Kind) (*l1World, error) {
 // l1NameSuffix makes the names of collections, clients and keys vary with the drawn id seed (which
 // shrinks towards the plain names): names are free text for orda - long ones, multi-byte ones, ones
 // with blanks and punctuation are as legal as "k1" (they end up in log tags, lock names, MQTT topics,
-// MongoDB ids). Characters with a meaning of their own in MQTT topics (/ # +) and MongoDB collection
-// names ($ and NUL) are left out.
+// MongoDB ids). The MQTT wildcards (# +), which no topic may contain, and what MongoDB forbids in collection
+// names ($ and NUL) are left out; collection names also have no '/'.
 func l1NameSuffix(x uint64, collection bool) string {
 	pool := []string{"", "", "-a-rather-long-name-of-more-than-forty-characters", "문서문서문서문서문서", " список покупок", "買い物リスト", "étè,a;b c", " 50%? \"q\""}
 	if collection {
 		pool = pool[:6]
+	} else {
+		pool = append(pool, "/with/slashes") // a key is free text; the MQTT topic <collection>/<key> simply has more levels
 	}
 	return pool[x%uint64(len(pool))]
 }
